@@ -147,6 +147,16 @@ def applyOp (c : Cfg) (d : D) (op : Array Json) : R D := do
     let val ← optNat (← arg 4)
     let cl ← asBool (← arg 5)
     pure (fire c d (Ev.data p (Req.put x ev val cl)))
+  | "putm" =>
+    let p ← asNat (← arg 1)
+    let qs ← match (← arg 2) with
+      | .arr a => a.toList.mapM fun q => do
+          match q with
+          | .arr #[x, ev, val] => do pure ((← asNat x), (← optBool ev), (← optNat val))
+          | _ => throw "putm: query must be [x, ev, val]"
+      | _ => throw "putm: list of queries expected"
+    let cl ← asBool (← arg 3)
+    pure (fire c d (Ev.data p (Req.putMany qs cl)))
   | "get" => pure (fire c d (Ev.data (← asNat (← arg 1)) (Req.get (← asNat (← arg 2)))))
   | "prepare" => pure (fire c d (Ev.data (← asNat (← arg 1)) (Req.prepare (← asNat (← arg 2)))))
   | "bad_http" => pure (fire c d (Ev.data (← asNat (← arg 1)) Req.badHttp))
